@@ -69,6 +69,11 @@ func runC18(c *kit.Ctx) {
 			c.Check(okFn && held, fn, "set-read-deadline", call.Pos(), "in a helper, with inFlightM held", "SetReadDeadline on the connection outside inFlightUp/inFlightDown or without inFlightM")
 		}
 	}
+	for _, fn := range p.Funcs {
+		for _, call := range kit.Calls(fn, "(net.Conn).SetDeadline") {
+			c.Bad(fn, "set-deadline", call.Pos(), "SetDeadline arms the read deadline as well, outside the counter's helpers: nothing clears it (the hello path only resets the write deadline), so an idle connection is torn down when it expires", "")
+		}
+	}
 	for _, s := range callersOf(p, upName) {
 		c.Check(s.Parent() == send, s.Parent(), "caller-of-inFlightUp", s.Pos(), "called from send", "inFlightUp called from an unexpected place: a request is counted that was not sent")
 	}
